@@ -51,6 +51,9 @@ def shards(tier, seed):
                 out.append((tier, seed, name, si, kinds, version))
     out.append((tier, seed, 'ATTR', 0, None, '1.0'))
     out.append((tier, seed, 'ATTR', 0, None, '1.1'))
+    for k in range(len(seqcho_bases())):
+        for version in ('1.0', '1.1'):
+            out.append((tier, seed, 'SEQCHO', k, None, version))
     for fam in FACETS:
         n = len(facet_sets(fam, 2 if tier == 'thorough' else 1))
         for lo in range(0, n, 8):
@@ -113,8 +116,39 @@ def wild_variants(model):
             yield M.replace_leaf(model, i, lambda o, w=w: M.wild(w, o[1], o[2]))
 
 
+def seqcho_bases():
+    """A sequence holding a required element next to a choice between an element and a wildcard (the shape in which a
+    derived ELEMENT particle is compared with a base choice)."""
+    out = []
+    for w in ('~any', '~tns', '~other'):
+        for x in ('a', 'b'):
+            for occ in M.O5:
+                cho = ('cho', occ[0], occ[1], (M.el('a'), M.wild(w)))
+                out.append(('seq', 1, 1, (M.el(x), cho)))
+                out.append(('seq', 1, 1, (cho, M.el(x))))
+    return out
+
+
 def run_shard(shard, acc):
     tier, seed, name, si, kinds, version = shard
+    if name == 'SEQCHO':
+        base = seqcho_bases()[si]
+        pairs = [(ename, base, d) for ename, d in edits.single_edits(base)
+                 if not (version == '1.0' and '~not' in M.show(d))]
+        for lo in range(0, len(pairs), PACK):
+            chunk = pairs[lo:lo + PACK]
+            with acc.guard(300):
+                schema, status = build_pairs(version, [(b, r) for _, b, r in chunk])
+            acc.st(traces=len(chunk))
+            for i, (ename, b, r) in enumerate(chunk):
+                acc.ev()
+                d, label = judge_pair(schema, i, version, b, r, status[i], acc)
+                acc.out(label)
+                if status[i] == 'accepted' or 'not-included' in label:
+                    acc.nt('%s %s %s' % (version, M.show(b), M.show(r)))
+                if d:
+                    acc.disc(d[0], d[1], {'version': version, 'base': model_to_json(b), 'derived': model_to_json(r), 'edit': ename})
+        return
     if name == 'ATTR':
         return run_attr_shard(tier, version, acc)
     if name.startswith('FACET:'):
@@ -461,6 +495,7 @@ def replay(case):
 def bounds(tier, seed):
     return {'spaces': [{'name': s[0], 'nodes': s[1], 'occurrences': len(s[2]), 'max_nondefault': s[3],
                         'wildcard_leaf_variants': s[4], 'seed_slice_1_of_%d' % SLICES: s[5]} for s in spaces(tier)],
+            'seqcho': '60 bases sequence(element, choice(element | wildcard)) in both orders x every single edit',
             'edits': 'every single edit of mc/gen/edits.py at every position',
             'facets': 'integer / string / decimal: every base facet set of size 1 (thorough: <= 2) x every derived facet set of size <= 2 x a value catalogue',
             'attributes': '7 base uses x 2 types x 4 wildcards x 8 derived uses x 3 types x 4 wildcards x 18 attribute sets',
